@@ -65,6 +65,9 @@ func (f *failoverStatus) report(ctx context.Context, witness string) *status.Sta
 		if f.timer != nil {
 			f.timer.Stop()
 		}
+		// The witnesses reported the current leader. Whoever leads next starts
+		// with a clean slate, otherwise a single report would depose it.
+		f.witnesses = make(map[string]struct{})
 		f.mu.Unlock()
 		return f.failover.Failover(ctx)
 	}
